@@ -447,6 +447,13 @@ def key_of(v):
     return json.dumps(v)
 
 
+def _py_eq(a, b):
+    try:
+        return bool(a == b)
+    except Exception:
+        return False
+
+
 def gen_value(rng, t, nulls=True, pnull=0.15):
     """A model value of type t that the driver is expected to accept (possibly with nulls inside)."""
     k = t[0]
@@ -462,13 +469,24 @@ def gen_value(rng, t, nulls=True, pnull=0.15):
     if k == 'list':
         return ['seq', [elem(t[1]) for _ in range(rng.choice([0, 1, 1, 2, 3, 5]))]]
     if k == 'set':
-        out, seen = [], set()
+        # elements must be distinct as PYTHON values (0.0 == -0.0, Decimal('1.0') == Decimal('1')): a set cannot hold
+        # both, and util.sortedset keeps only one of them
+        out, seen, objs = [], set(), []
         for _ in range(rng.choice([0, 1, 2, 3, 5])):
             x = elem(t[1])
             kx = key_of(norm(t[1], x))
-            if kx not in seen:
-                seen.add(kx)
-                out.append(x)
+            if kx in seen:
+                continue
+            try:
+                o = to_py(t[1], x)
+                dup = any(_py_eq(o, p) for p in objs)
+            except Exception:
+                o, dup = None, False
+            if dup:
+                continue
+            seen.add(kx)
+            objs.append(o)
+            out.append(x)
         return ['seq', out]
     if k == 'map':
         out, seen = [], set()
